@@ -35,6 +35,12 @@ type Program struct {
 	Specs   map[*ssa.Function]*contract.FuncSpec
 	SpecSrc []*contract.File
 	Defines map[string]*contract.Define
+	// SpecDefs: recursive spec functions (`//@ specdef`); each is an SMT function symbol plus its
+	// defining equation as a quantified axiom (a definition, not an assumption about the code;
+	// recursion must be well-founded: the recursive calls are on a smaller guarded argument)
+	SpecDefs   []*contract.Define
+	specDefAx  []*T
+	specDefSig map[string]*contract.Define
 	defPkg  map[*contract.Define]*types.Package
 	specPkg map[*contract.FuncSpec]*types.Package
 	Init    *InitState
@@ -251,8 +257,25 @@ func (p *Program) loadContracts(paths []string) error {
 		}
 		p.SpecSrc = append(p.SpecSrc, cf)
 		for _, d := range cf.Defines {
-			p.Defines[sp.Pkg.Name()+"."+d.Name] = d
 			p.defPkg[d] = sp.Pkg
+			if d.Rec {
+				var args []*term.Sort
+				for _, pa := range d.Params {
+					so, err := parseGhostSort(pa.Type)
+					if err != nil {
+						return fmt.Errorf("%s:%d: specdef %s: %v", file, d.Line, d.Name, err)
+					}
+					args = append(args, so)
+				}
+				ret, err := parseGhostSort(d.Ret)
+				if err != nil {
+					return fmt.Errorf("%s:%d: specdef %s: %v", file, d.Line, d.Name, err)
+				}
+				p.specFuns[d.Name] = term.DeclareFun("spec!"+d.Name, args, ret)
+				p.SpecDefs = append(p.SpecDefs, d)
+				continue
+			}
+			p.Defines[sp.Pkg.Name()+"."+d.Name] = d
 		}
 		for _, a := range cf.Axioms {
 			p.Axioms = append(p.Axioms, a)
